@@ -186,23 +186,31 @@ class Driver:
                                   text=True, bufsize=1 << 20)
 
     def batch(self, requests):
-        """Send all requests, read all answers (the driver answers line by line)."""
+        """Send all requests, read all answers (the driver answers line by line). A writer
+        thread feeds stdin while this thread reads, so request/answer sizes never deadlock."""
         if not requests:
             return []
+        import threading
+
         data = "".join(json.dumps(r, separators=(",", ":")) + "\n" for r in requests)
-        # write in a thread-free way: chunk to avoid pipe deadlock
+        err = []
+
+        def feed():
+            try:
+                self.p.stdin.write(data)
+                self.p.stdin.flush()
+            except Exception as e:  # pragma: no cover
+                err.append(e)
+
+        t = threading.Thread(target=feed, daemon=True)
+        t.start()
         out = []
-        CH = 200
-        lines = data.split("\n")[:-1]
-        for i in range(0, len(lines), CH):
-            chunk = lines[i:i + CH]
-            self.p.stdin.write("\n".join(chunk) + "\n")
-            self.p.stdin.flush()
-            for _ in chunk:
-                line = self.p.stdout.readline()
-                if not line:
-                    raise RuntimeError("model driver died")
-                out.append(json.loads(line))
+        for _ in requests:
+            line = self.p.stdout.readline()
+            if not line:
+                raise RuntimeError("model driver died" + (f": {err[0]}" if err else ""))
+            out.append(json.loads(line))
+        t.join()
         return out
 
     def call(self, request):
